@@ -84,6 +84,15 @@ def param_stream(rng, max_shape=9, exhaustive=False):
         elif name == 'rooms':
             if rng.random() < 0.3:
                 h, w = rng.choice([7, 9, 10, 13]), rng.choice([7, 9, 10, 13])
+            if rng.random() < 0.08:
+                # long sides with many rooms: where `(size - 1) / rooms` is not exact, the wall lines are what
+                # numpy's linspace says (its last sample is the far wall, exactly)
+                big, lay = rng.choice([(31, 11), (31, 13), (50, 11), (61, 11), (61, 13), (62, 7), (62, 14), (64, 13), (rng.randint(20, 70), rng.randint(3, 15))])
+                if rng.random() < 0.5:
+                    yield name, dict(h=big, w=rng.randint(4, 7), lh=lay, lw=1)
+                else:
+                    yield name, dict(h=rng.randint(4, 7), w=big, lh=1, lw=lay)
+                continue
             yield name, dict(h=h, w=w, lh=rng.randint(-1, 4) if rng.random() < 0.2 else rng.randint(1, 3), lw=rng.randint(0, 4) if rng.random() < 0.2 else rng.randint(1, 3))
         elif name == 'dynamic_obstacles':
             yield name, dict(h=h, w=w, n=rng.randint(-1, max(0, (h - 2) * (w - 2))), random_agent=rng.random() < 0.5)
